@@ -91,7 +91,7 @@ def cases(tier, seed):
 def monitor(spec, res, acc):
     tr = res.trace
     cov = acc.cov
-    wt = tr.init["water_table"] == 1
+    wt = spec.get("gw") is not None
     prev = None
     gsum = 0.0
     season_days = {}
